@@ -29,6 +29,13 @@ def programs(tier, rnd: random.Random):
         for ctx in ("{ %s }", "{ RdV = RsV; %s }", "{ %s ReV = RtV; }", "{ if (RsV) { %s } }", "{ for (i = 0; i < 2; i++) { %s } }",
                     "{ if (RsV) { ReV = 1; } else { %s } }", "{ int32_t a = RsV; a++; %s }"):
             progs.append(ctx % u)
+    # chained assignments (each member is an assignment whose VALUE is used): all members must take effect, or the chain is rejected
+    for ch in ("RdV = ReV = RsV;", "RdV = ReV = RxV = RsV;", "RdV = ReV = RxV = RyV = 0;", "int32_t a; int32_t b; a = b = RdV = RsV;",
+               "int32_t i = RsV; RdV = ReV = i++;", "RdV = ReV = clz32(RsV);", "RdV = (ReV = RsV) + 1;", "RdV = ReV += RsV;"):
+        for ctx in ("{ %s }", "{ if (RtV) { %s } }", "{ for (j = 0; j < 2; j++) { %s } }", "{ %s RxV = RxV + 1; }"):
+            if "RxV" in ch and "RxV = RxV" in ctx:
+                continue
+            progs.append(ctx % ch)
     # "translated COMPLETELY": every ordered pair of SUPPORTED statements, at top level, in a branch, in a loop body -- the
     # differential oracle (C semantics vs the real output's IL semantics) notices a statement that produced no effect
     simple = ["RdV = RsV;", "ReV = 1;", "mem_store_u32(RtV, RsV);", "JUMP(RtV);", "PdV = 1;", "if (RsV) { RdV = 2; }", "int32_t a = RtV;",
